@@ -1,5 +1,5 @@
 import importlib
-MODULES = ['leaf_checks']
+MODULES = ['leaf_checks', 'lang']
 
 
 def load_all():
